@@ -23,6 +23,34 @@ CLAIMS = {
    text="Lean theorem C07_history: for every finite history of crypt_r/crypt_rn/static crypt/crypt_gensalt/arbitrary overwrites over any number of shared objects, from every initial state, each call's (result, errno) equals a history-free function of its own arguments; C07_entry: the entry points agree. Correspondence over random histories with recurring requests, four pre-fill modes, 16 alignments; oracle: the same request never gets two different answers.",
    note=TB + "In the model the methods cannot read the object, so the content of the claim rests on the correspondence of histories (stale-memory reads in C would show as differing answers); crypt_ra is tied in by C14.",
    technique="Lean 4 proof by induction over histories + random-history correspondence", ref="DESIGN.md §6 C07"),
+ "C01": dict(
+   text="Model of all 16 front-ends (parse + emit, digests as parameters) with full-output correspondence (every primitive is executable in Lean: MD4/MD5/SHA-1/SHA-2/Streebog/DES/Blowfish/yescrypt); Lean theorem that every result passes the generic setting filter; implementation oracle re-hashes every success with its result and with a setting whose hash portion is random.",
+   note=TB + "Per-method round-trip theorems (parse (emit ..) = ..) are being added method by method; until all sixteen exist the re-hash clause rests on the oracle over the grammar-shaped stream.",
+   technique="Lean 4 model + proof (partial), exact model/implementation correspondence, re-hash oracle", ref="DESIGN.md §6 C01"),
+ "C06": dict(
+   text="Lean theorem C06_safe for all 16 methods and any digests of the right length: a successful result is passwd-safe printable ASCII, non-empty, shorter than CRYPT_OUTPUT_SIZE, never starts with '*'; alphabets and fixed digest lengths decided over the tables generated from the tree; an independent per-method recogniser written from crypt(5) runs over the stream, every result goes back through crypt_checksalt and crypt_gensalt.",
+   note=TB + "Field-structure theorems per method are partial (lengths/alphabets proved, exact decomposition checked by the recogniser).",
+   technique="Lean 4 proof + recogniser oracle over grammar-shaped stream", ref="DESIGN.md §6 C06"),
+ "C10": dict(
+   text="Lean theorems: the three gensalt entry points coincide, NULL selects the default prefix, the method is chosen by the leading tag only, results fit; correspondence for all prefixes x counts x nrbytes 0..256 x entry points; oracle feeds every generated setting to crypt_checksalt and crypt and checks the literal-prefix clause.",
+   note=TB + "The clause 'crypt accepts every generated setting' is decided by the oracle (compute-budgeted: scrypt and large yescrypt costs are cut and counted), not yet by a theorem.",
+   technique="Lean 4 proof (partial) + gensalt->checksalt->crypt oracle", ref="DESIGN.md §6 C10"),
+ "C11": dict(
+   text="Lean theorems for the cost each writer encodes (sha clamp, SunMD5 floor and no 32-bit wrap, sha1crypt window, bsdicrypt odd/<=2^24-1, fixed-cost and $2x$ rejections, bcrypt range); an independent decoder written from crypt(5) checks the documented function of count for 6k counts x 15 prefixes.",
+   note=TB + "scrypt/yescrypt cost fields are decided by the decoder oracle and the correspondence, their decode(encode) lemma is not proved yet.",
+   technique="Lean 4 proof (partial) + independent cost decoder", ref="DESIGN.md §6 C11"),
+ "C12": dict(
+   text="Lean theorems: too-short random input gives EINVAL for every salted writer, the OS-entropy request size from the generated dispatch table is sufficient for every method, the 3-byte -> 4-character packer is injective; oracle flips every bit of the consumed window (must change the salt) and bits outside (must not), checks minimum/standard salt sizes and that two NULL-rbytes calls differ.",
+   note=TB + "The OS CSPRNG is a parameter of the model; whole-writer injectivity is by the bit-flip oracle, proved only for the packer.",
+   technique="Lean 4 proof (partial) + bit-flip oracle", ref="DESIGN.md §6 C12"),
+ "C16": dict(
+   text="Lean theorem (generic Merkle-Damgard context): for every message and every chunking, final(update*(init)) equals the published one-shot definition; instantiated for MD4, MD5, SHA-1, SHA-256, SHA-512; HMAC built from streaming calls is RFC 2104; padding yields whole blocks. Compression functions and constants come from the tree; correspondence + hashlib/RFC oracles over lengths 0..1100, all split points, alignments, HMAC keys 0..200, PBKDF2 grids.",
+   note=TB + "Streebog and the PBKDF2 c=1 fast path are tied by correspondence and known-answer vectors only; counters are unbounded naturals in the model (the 2^61-byte carry code is not modelled).",
+   technique="Lean 4 proof (streaming = one-shot) + exhaustive-split correspondence", ref="DESIGN.md §6 C16"),
+ "C17": dict(
+   text="Lean theorems (kernel evaluation): all ten DES lookup tables extracted from the tree equal the tables derived in Lean from the FIPS 46-3 permutations and S-boxes by the documented construction; key shifts as published. The table-driven model is compared with the code and with a bit-level FIPS 46-3 implementation (weight-1/63 keys and blocks, every salt bit, counts); setkey/encrypt/_r run through the freshly linked libcrypt.so.1 in random histories interleaved with crypt calls.",
+   note=TB + "dec(enc(b)) = b and parity-independence are decided by the oracle, not yet by theorems (bit-vector reasoning without bv_decide).",
+   technique="Lean 4 proof by kernel evaluation over generated tables + bit-level DES oracle", ref="DESIGN.md §6 C17"),
 }
 NOT_YET = "check under construction in this round; not claimed yet"
 
